@@ -1,7 +1,13 @@
-(* C13 - token hold time (station-local, one-step part).
-   Planned on top of the same model (not yet proved): that the deadline equals previous token time + TTR
-   (- GAP reserve) along histories, C13_rotation_bound (abstract). *)
-From PB Require Import Common Params Fdl FdlProofs FdlStepProofs.
+(* C13 - token hold time.
+   Station-local rule (FULL): one-step theorems from all states (C13_hold_over_passes, C13_hold_rule,
+   C13_hold_rule_poll, C13_deadline_as_coded) and history theorems for arbitrary applications and
+   arbitrary event sequences (C13_visit_bounded, C13_one_gap_poll_per_visit; histories as in C15.v).
+   Global rotation bound (CONDITIONAL / partial): C13_rotation_bound_conditional derives the bound
+   TTR + N (C + O) per rotation from per-visit hypotheses that are exactly what the local theorems give
+   for one station, plus timing bounds C (one message cycle) and O (hand-over).  NOT proved: that the
+   composed N-station timed system produces visit sequences with these properties (ring stability,
+   bounded poll latency, bounded cycles and hand-overs). *)
+From PB Require Import Common Params Fdl FdlProofs FdlStepProofs C15Proofs C13Proofs.
 
 (* Once the hold time of the visit is over and the guaranteed message cycle is done, no application is
    asked, nothing is transmitted and the station proceeds to pass the token - for all states of the
@@ -31,3 +37,121 @@ Theorem C13_hold_rule : forall (A : Type) (ops : app_ops A) (f : fdl) (now : Z) 
      else now < f_end_tht f').
 Proof. exact do_use_token_hold_rule. Qed.
 Print Assumptions C13_hold_rule.
+
+(* ---------------------------------------------------------------------------------------------- *)
+(* C13_hold_rule for a whole poll (poll_inner through all do_* functions, including the time-out path
+   do_await_data_response -> do_use_token), from ANY station state: the transmit callbacks of one poll
+   are of one priority class; if there are any, then either now < end_token_hold_time (normal round), or
+   the hold time is over, only high-priority telegrams are asked for, and the visit had not had a round
+   yet when the poll began (first_cycle_done = false). *)
+Theorem C13_hold_rule_poll : forall (A : Type) (ops : app_ops A) (f : fdl) (now : Z) (pin : phy_in)
+    (apps : list A) (f' : fdl) (o : phy_out) (apps' : list A) (calls : list call),
+  poll ops f now pin apps = Ok (f', o, apps', calls) ->
+  exists hp, Forall (prio_of hp) calls /\
+    (asks calls ->
+     if hp then (exists tk fa, f_state f = UseToken tk fa false) /\ f_end_tht f' <= now
+     else now < f_end_tht f').
+Proof. exact poll_hold_rule. Qed.
+Print Assumptions C13_hold_rule_poll.
+
+(* The deadline as coded (active.rs:1172-1182): do_use_token computes it once per visit - when
+   last_token_time differs from the token time of the visit - as previous token time + TTR, minus
+   Tslot + 100 bit when a GAP poll is due (gap_reserve); afterwards last_token_time is the token time of
+   the visit and the deadline stays.  Third conjunct: the state do_use_token leaves. *)
+Theorem C13_deadline_as_coded : forall (A : Type) (ops : app_ops A) (f : fdl) (now : Z) (w : world A)
+    (f' : fdl) (w' : world A) (tk : Z) (fa : option nat) (fcd : bool),
+  do_use_token A ops f now w = Ok (f', w') -> f_state f = UseToken tk fa fcd ->
+  f_p f' = f_p f /\
+  (if f_last_token_time f =? tk
+   then f_last_token_time f' = f_last_token_time f /\ f_end_tht f' = f_end_tht f
+   else f_last_token_time f' = tk /\
+        f_end_tht f' = f_last_token_time f + token_rotation_time (f_p f) - gap_reserve f) /\
+  ((f_state f' = f_state f /\ w_calls w' = w_calls w) \/
+   (exists fa', f_state f' = UseToken tk fa' true) \/
+   (exists a fa', f_state f' = AwaitDataResponse a tk fa') \/
+   f_state f' = PassToken true first_attempt).
+Proof. exact do_use_token_state. Qed.
+Print Assumptions C13_deadline_as_coded.
+
+(* C13_visit_bounded, over histories (acceptor hpre / hpost; h_asked = "an application has been asked in
+   an earlier poll of this visit"): in every poll of every visit, applications are asked for normal
+   telegrams only when now < end_token_hold_time; they are asked for high-priority telegrams only when
+   end_token_hold_time <= now, and only if NO application has been asked before in this visit, and never
+   both in one poll.  So after the deadline a visit starts at most one more message cycle - the
+   guaranteed first one; with C13_hold_over_passes the station then passes the token. *)
+Theorem C13_visit_bounded : forall (A : Type) (ops : app_ops A) (p : params) (f0 : fdl) (apps : list A)
+    (evs : list (event A)) (f : fdl) (apps' : list A) (h : list hitem),
+  fdl_new p = Ok f0 -> run A ops f0 apps evs = Ok (f, apps', h) -> accepts hpre hpost hst_init h.
+Proof. exact visit_bounded_history. Qed.
+Print Assumptions C13_visit_bounded.
+
+(* the same from every state satisfying the stated invariant InvH, with the invariant afterwards *)
+Theorem C13_visit_bounded_from_any_state : forall (A : Type) (ops : app_ops A) (f : fdl) (s : hst) (apps : list A)
+    (evs : list (event A)) (f' : fdl) (apps' : list A) (h : list hitem),
+  InvH f s -> run A ops f apps evs = Ok (f', apps', h) -> accepts hpre hpost s h /\ InvH f' (posts hpost s h).
+Proof. exact visit_bounded_from_inv. Qed.
+Print Assumptions C13_visit_bounded_from_any_state.
+
+(* C13_one_gap_poll_per_visit (acceptor gpre / gpost): after a visit the station enters
+   AwaitStatusResponse - which, by C12_pass_token_polls_in_gap, happens exactly when do_pass_token has
+   sent one GAP request - at most once before the next visit, and only from PassToken.  (The time for this
+   one request is what the GAP reserve of C13_deadline_as_coded sets aside when the GAP cursor is in a
+   sweep; the first request of a sweep, started when the wait counter expires in do_pass_token, is not
+   reserved for - as coded.) *)
+Theorem C13_one_gap_poll_per_visit : forall (A : Type) (ops : app_ops A) (p : params) (f0 : fdl) (apps : list A)
+    (evs : list (event A)) (f : fdl) (apps' : list A) (h : list hitem),
+  fdl_new p = Ok f0 -> run A ops f0 apps evs = Ok (f, apps', h) -> accepts gpre gpost gst_init h.
+Proof. exact one_gap_poll_history. Qed.
+Print Assumptions C13_one_gap_poll_per_visit.
+
+(* C13_deadline_constant_in_visit (acceptor dpre / dpost): all polls of one visit in which applications
+   are asked see the same end_token_hold_time - the deadline of C13_visit_bounded is one number per
+   visit (computed by the first do_use_token of the visit, C13_deadline_as_coded). *)
+Theorem C13_deadline_constant_in_visit : forall (A : Type) (ops : app_ops A) (p : params) (f0 : fdl) (apps : list A)
+    (evs : list (event A)) (f : fdl) (apps' : list A) (h : list hitem),
+  fdl_new p = Ok f0 -> run A ops f0 apps evs = Ok (f, apps', h) -> accepts dpre dpost dst_init h.
+Proof. exact deadline_constant_history. Qed.
+Print Assumptions C13_deadline_constant_in_visit.
+
+(* ---------------------------------------------------------------------------------------------- *)
+(* The connection to the abstract rotation bound.  A `visit` records, for one token visit, the numbers
+   the local theorems speak about; visit_ok = hold_ok (the conclusion of C13_hold_rule / C13_visit_bounded
+   per round) + deadline_ok (C13_deadline_as_coded: deadline <= previous token time + TTR) + timing_ok
+   (assumed bounds: C on a message cycle, O on the hand-over).  ring_run: visit v is at station v mod N,
+   arrival times chain, vi_prev is the arrival of the same station N visits earlier. *)
+Theorem C13_hold_inequality : forall (TTR C O : Z) (v : visit), visit_ok TTR C O v -> 0 <= C ->
+  vi_release v - vi_arrival v <= Z.max 0 (TTR - (vi_arrival v - vi_prev v)) + C.
+Proof. exact hold_inequality. Qed.
+Print Assumptions C13_hold_inequality.
+
+(* CONDITIONAL: if the visits of a stable ring of N stations satisfy visit_ok, every rotation
+   takes at most TTR + N (C + O).  That N composed model stations produce such visits is NOT proved. *)
+Theorem C13_rotation_bound_conditional : forall (N : nat) (V : nat -> visit) (TTR C O : Z),
+  (1 <= N)%nat -> ring_run N V -> (forall v, visit_ok TTR C O (V v)) -> 0 <= TTR -> 0 <= C -> 0 <= O ->
+  forall v, (N <= v)%nat ->
+  vi_arrival (V (v + N)%nat) - vi_arrival (V v) <= TTR + Z.of_nat N * (C + O).
+Proof. exact rotation_bound_conditional. Qed.
+Print Assumptions C13_rotation_bound_conditional.
+
+(* Non-vacuity: a three-station ring whose visits satisfy the hypotheses; the monitors reject a normal
+   round after the deadline, a second extra round, and a second GAP request. *)
+Example C13_hypotheses_satisfiable : ring_run 3 example_visit /\ forall v, visit_ok 100 10 1 (example_visit v).
+Proof. exact example_ring_ok. Qed.
+
+Example C13_monitor_rejects_late_round :
+  ~ accepts hpre hpost (mkH KUseToken true false false)
+      [HCall (CallTransmit 0 false None); HEnd 500 (stub_fdl (PassToken true AttFirst) 400)].
+Proof. exact hold_rejects_late_round. Qed.
+
+Example C13_monitor_rejects_second_extra_round :
+  ~ accepts hpre hpost (mkH KUseToken true false false) [HCall (CallTransmit 0 true None)].
+Proof. exact hold_rejects_second_extra_round. Qed.
+
+Example C13_monitor_rejects_second_gap_poll :
+  ~ accepts gpre gpost (mkG KPassToken 1) [HEnd 0 (stub_fdl (AwaitStatusResponse 9) 0)].
+Proof. exact gap_rejects_second_poll. Qed.
+
+Example C13_monitor_rejects_deadline_change :
+  ~ accepts dpre dpost (mkD KUseToken (Some 400) false)
+      [HCall (CallTransmit 0 false None); HEnd 100 (stub_fdl (UseToken 0 None true) 900)].
+Proof. exact deadline_rejects_change. Qed.
